@@ -403,8 +403,13 @@ impl<'a> Ctl<'a> {
             self.fail(f, k, "rust-async:export:signature:async-lift", &e);
             return;
         }
-        let (args, _) = self.host.gen_args(f, false);
+        let (mut args, _) = self.host.gen_args(f, false);
         let (result, _) = self.host.gen_result(f, false);
+        let mut lent = vec![];
+        let mut next_handle = 100 + 10 * (k as u32 % 50);
+        for a in args.iter_mut() {
+            uniquify_handles(a, &mut next_handle, &mut lent);
+        }
         self.host.workload(&args);
         if let Some(r) = &result {
             self.host.workload(std::slice::from_ref(r));
@@ -413,6 +418,11 @@ impl<'a> Ctl<'a> {
         let scripted = result.as_ref().map(|v| self.host.text(v));
         obs::clear();
         obs::push_script(scripted.clone().unwrap_or_default());
+        if !lent.is_empty() {
+            self.host.rep.count("async_export_calls_with_borrows");
+            self.host.rep.count_n("borrows_lent", lent.len() as u64);
+        }
+        let lent_copy = lent.clone();
         // guest-side plan
         let mut prng = Rng::new(seed_for(self.seed, &key, k, "plan"));
         let y0 = [0u32, 0, 1, 2][prng.usize(4)];
@@ -421,6 +431,7 @@ impl<'a> Ctl<'a> {
         let plan = format!("export:y{y0}+{y1}{}", if cancel { ":cancel" } else { "" });
         with_acall(|a| {
             a.yields = [y0, y1];
+            a.lent = lent_copy.clone();
             a.exp = Some(AExport { tr_link: format!("verif_import|[export]{}|[task-return]{}", f.module, f.name), result: f.result, returns: vec![] });
         });
         sched::begin(vec![], 0, seed_for(self.seed, &key, k, "sched"), 96);
@@ -490,6 +501,22 @@ impl<'a> Ctl<'a> {
         let ok = self.task_accounting(f, k, t, cancelled, stuck, ex.returns.len() as u32, "export");
         if self.stop {
             return;
+        }
+        if !lent.is_empty() {
+            let (held, dropped, bad, events) = with_acall(|a| (a.held_at_return.clone(), a.dropped.clone(), a.bad_drops.clone(), a.borrow_events.clone()));
+            self.host.rep.count("borrow_accounting_checks");
+            if let Some(h) = held {
+                if !h.is_empty() {
+                    self.fail(f, k, "rust-async:export:task-return:borrow-still-held", &format!("task.return was called while the borrowed handles {h:?} lent to this call were still held (a trap in the canonical ABI); host log: {events:?}"));
+                }
+            }
+            let never: Vec<u32> = lent.iter().copied().filter(|h| !dropped.contains(h)).collect();
+            if !never.is_empty() {
+                self.fail(f, k, "rust-async:export:borrow:never-dropped", &format!("the task exited without dropping the borrowed handles {never:?}; host log: {events:?}"));
+            }
+            if !bad.is_empty() {
+                self.fail(f, k, "rust-async:export:borrow:dropped-twice-or-unknown", &format!("resource.drop of handles {bad:?} that were not lent to this call or were already dropped; host log: {events:?}"));
+            }
         }
         // observations of the user implementation
         let log = obs::take_log();
@@ -766,6 +793,42 @@ impl<'a> Ctl<'a> {
     }
 }
 
+/// give every handle in the arguments its own index (a real host creates one
+/// handle-table entry per lent borrow); returns the indices
+fn uniquify_handles(v: &mut Val, next: &mut u32, out: &mut Vec<u32>) {
+    match v {
+        Val::Handle(h) => {
+            *h = *next;
+            out.push(*next);
+            *next += 1;
+        }
+        Val::List(xs) | Val::Record(xs) => xs.iter_mut().for_each(|x| uniquify_handles(x, next, out)),
+        Val::Map(xs) => xs.iter_mut().for_each(|(k, x)| {
+            uniquify_handles(k, next, out);
+            uniquify_handles(x, next, out)
+        }),
+        Val::Variant(_, Some(p)) => uniquify_handles(p, next, out),
+        _ => {}
+    }
+}
+
+/// every handle inside `ty` is a `borrow<R>`
+fn only_borrows(abi: &Abi, ty: &Type, depth: usize) -> bool {
+    use cabi_ref::{HandleKind, Shape};
+    if depth > 8 {
+        return false;
+    }
+    match abi.shape(ty) {
+        Shape::Handle(HandleKind::Borrow) => true,
+        Shape::Handle(_) => false,
+        Shape::List(t) | Shape::FixedList(t, _) => only_borrows(abi, &t, depth + 1),
+        Shape::Map(k, v) => only_borrows(abi, &k, depth + 1) && only_borrows(abi, &v, depth + 1),
+        Shape::Record(fs) => fs.iter().all(|f| only_borrows(abi, f, depth + 1)),
+        Shape::Variant(cs, _) => cs.iter().flatten().all(|f| only_borrows(abi, f, depth + 1)),
+        _ => true,
+    }
+}
+
 fn note_code(t: u32, code: u32) {
     mh::with(|h| {
         let task = &mut h.tasks[t as usize];
@@ -848,7 +911,14 @@ pub fn run(tables: &'static Tables, at: &'static AsyncTables) {
     let mut usable = vec![];
     for f in funcs {
         let handle = f.params.iter().chain(f.result.iter()).any(|t| type_has_handle(&ctl.host.abi, t, 0));
-        if handle || f.resource().is_some() {
+        // handles are only admitted as `borrow<imported resource>` parameters of exports (the
+        // "no borrow outlives task.return" rule); everything else with handles is C07 territory
+        let borrows_ok = f.dir == Dir::Export
+            && f.resource().is_none()
+            && f.result.as_ref().map(|t| !type_has_handle(&ctl.host.abi, t, 0)).unwrap_or(true)
+            && f.params.iter().all(|t| only_borrows(&ctl.host.abi, t, 0))
+            && ctl.host.view.resources.iter().all(|r| r.dir == Dir::Import);
+        if (handle && !borrows_ok) || f.resource().is_some() {
             ctl.host.rep.count("skipped_handle_functions");
             continue;
         }
